@@ -236,17 +236,23 @@ func c15Classes(c *Ctx) {
 	reg := fi.Iteration(topicLoop)
 	stored := MapUpdateOn(FieldLoad(cMeta))
 	// named results are spilled to cells because of the deferred unlock
-	cell := func(name string) ssa.Value {
-		for _, b := range fn.Blocks {
-			for _, in := range b.Instrs {
-				if al, ok := in.(*ssa.Alloc); ok && al.Comment == name {
-					return al
+	// the two results (retry bool, err error) are spilled to cells because of the deferred unlock: take the cells
+	// from a return instruction, whatever the results are called
+	var retryCell, errCell ssa.Value
+	for _, b := range fn.Blocks {
+		if r, ok := lastInstr(b).(*ssa.Return); ok && !IsRecoverBlock(b) && len(r.Results) == 2 {
+			if u, ok := r.Results[0].(*ssa.UnOp); ok {
+				if al, ok := u.X.(*ssa.Alloc); ok {
+					retryCell = al
+				}
+			}
+			if u, ok := r.Results[1].(*ssa.UnOp); ok {
+				if al, ok := u.X.(*ssa.Alloc); ok {
+					errCell = al
 				}
 			}
 		}
-		return nil
 	}
-	retryCell, errCell := cell("retry"), cell("err")
 	if retryCell == nil || errCell == nil {
 		c.Unresolved(rule, "named results retry/err of updateMetadata")
 		return
